@@ -18,12 +18,12 @@ type Ref struct {
 	Member *Value // result must be an element of this array (nil when empty)
 }
 
-func val(v Value) Ref        { return Ref{Accept: []Value{v}} }
-func errRef() Ref            { return Ref{ErrOK: true} }
-func valOrErr(v Value) Ref   { return Ref{Accept: []Value{v}, ErrOK: true} }
-func isInt(v Value) bool     { return v.K == KInt }
-func isStr(v Value) bool     { return v.K == KStr }
-func runes(s string) []rune  { return []rune(s) }
+func val(v Value) Ref       { return Ref{Accept: []Value{v}} }
+func errRef() Ref           { return Ref{ErrOK: true} }
+func valOrErr(v Value) Ref  { return Ref{Accept: []Value{v}, ErrOK: true} }
+func isInt(v Value) bool    { return v.K == KInt }
+func isStr(v Value) bool    { return v.K == KStr }
+func runes(s string) []rune { return []rune(s) }
 func argOr(args []Value, i int, def Value) Value {
 	if i < len(args) {
 		return args[i]
